@@ -348,6 +348,7 @@ type failRec struct {
 	Sig      string          `json:"sig"`
 	Detail   string          `json:"detail"`
 	Replay   json.RawMessage `json:"replay"`
+	Extra    map[string]interface{} `json:"extra"`
 	race     bool
 }
 
@@ -893,6 +894,9 @@ func replayJSON(spec *propSpec, b *build, fr *failRec, note string) []byte {
 	if note != "" {
 		m["note"] = note
 	}
+	if fr.Extra != nil && fr.Extra["trace"] != nil {
+		m["trace"] = fr.Extra["trace"]
+	}
 	out, _ := json.MarshalIndent(m, "", " ")
 	return out
 }
@@ -900,7 +904,11 @@ func replayJSON(spec *propSpec, b *build, fr *failRec, note string) []byte {
 func writeReplay(spec *propSpec, b *build, min, orig *failRec) string {
 	dir := filepath.Join(root, "replays")
 	os.MkdirAll(dir, 0o755)
-	path := filepath.Join(dir, fmt.Sprintf("%s-%d-%s.json", spec.id, seed, sanitize(orig.Class)))
+	var h uint32 = 2166136261
+	for _, c := range []byte(orig.Sig) {
+		h = (h ^ uint32(c)) * 16777619
+	}
+	path := filepath.Join(dir, fmt.Sprintf("%s-%d-%s-%08x.json", spec.id, seed, sanitize(orig.Class), h))
 	note := "replay with: bin/simcheck -replay " + path
 	if err := os.WriteFile(path, replayJSON(spec, b, min, note), 0o644); err != nil {
 		die("cannot write replay file: %v", err)
